@@ -11,5 +11,5 @@ D="$(mktemp -d "${TMPDIR:-/tmp}/mc-$NAME.XXXXXX")"
 trap 'rm -rf "$D"' EXIT INT TERM
 cp "$HERE"/*.tla "$D"/ && cp "$HERE/cfg/$NAME.cfg" "$D/$MOD.cfg" || exit 2
 cd "$D" || exit 2
-timeout 3600 java -Xss512m -XX:+UseParallelGC -cp /opt/veriftools/tla/tla2tools.jar:/opt/veriftools/tla/CommunityModules-deps.jar \
+timeout 3600 java -Xss512m -XX:+UseParallelGC -Djava.io.tmpdir="$D" -cp /opt/veriftools/tla/tla2tools.jar:/opt/veriftools/tla/CommunityModules-deps.jar \
   tlc2.TLC -workers auto -metadir "$D/md" -noGenerateSpecTE "$@" "$MOD.tla"
